@@ -93,7 +93,7 @@ def gen_rat(rng, red, cov):
 def gen_pair(rng, red, cov):
     """second operand related to the first in the ways the shortcut branches distinguish"""
     x = gen_rat(rng, red, cov)
-    k = rng.below(17)
+    k = rng.below(19)
     fix = (lambda n, d: canon(n, d)) if red else (lambda n, d: (n, d) if n else (0, 1))
     if k == 0:
         rel, y = "same denominator", fix(gen_int(rng), x[1])
@@ -121,6 +121,15 @@ def gen_pair(rng, red, cov):
         rel, y = "y = 1/x", canon(x[1], x[0])
     elif k == 9:
         rel, y = "same numerator", fix(x[0], gen_den(rng))
+    elif k in (17, 18):
+        # all four components with independent limb counts: mpz_cmpabs then returns size differences of different magnitudes
+        def L(n):
+            v = vf.limbs_value(rng, n) | (1 << (64 * (n - 1))) if rng.chance(1, 2) else (1 << (64 * n)) - 1 - rng.bits(8)
+            return v or 1
+        sx = rng.choice([1, -1]); sy = sx if rng.chance(2, 3) else -sx
+        x = fix(sx * L(rng.range(1, 4)), L(rng.range(1, 4)))
+        y = fix(sy * L(rng.range(1, 4)), L(rng.range(1, 4)))
+        rel = "independent limb counts of all four components"
     elif k == 12:
         rel, x = "x = +-1", (rng.choice([1, -1]), 1)
         y = gen_rat(rng, red, {})
@@ -410,6 +419,149 @@ def build_cases(rng, tier, cov, sweep=True):
                 add("op" + sym, 1, flat(x, y), mop, flat(x, y), kind, exp)
                 add("op" + sym + "=", 1, flat(x, y), mop + "in", [0] + flat(x, y), kind, exp)
             add("cmpall", 1, flat(x, y), "cmpall", flat(x, y), "cmp", (sg(fx - fy), sg(abs(fx) - abs(fy))))
+    # ---- class sweep: every operator form x operand classes {0, 1, -1, integer, non-integer} (small and multi-limb) x alias pattern
+    B = 2**64
+    reps0 = [(0, 1), (1, 1), (-1, 1), (5, 1), (-7, 1), (B + 1, 1), (3, 7), (-9, 4), (B * B + 1, 2 * B + 3), (1, 3), (-1, 2), (-(B + 2), 3 * B)]
+    reps = [canon(*r) for r in reps0]
+    for red in ((1, 0) if tier != "quick" else (1,)):
+        if red == 0:
+            reps = reps0 + [(6, 4), (-B, 2 * B)]      # unreduced operands are legal in NoReduce mode
+        for x in reps:
+            fx = fr(x)
+            for sym, (mop, f) in BIN.items():
+                q = QNAME[sym]
+                if sym == "/" and x[0] == 0:
+                    exp, kind = None, "throw"
+                else:
+                    exp, kind = f(fx, fx), "rat"
+                for v in ("op" + sym + "=.alias", "q." + q + "in.alias"):
+                    add(v, red, flat(x), mop + "in", [1] + flat(x), kind, exp)
+                add("q." + q + ".alias_rab", red, flat(x), mop, flat(x, x), kind, exp)
+            for y in reps:
+                fy = fr(y)
+                for sym, (mop, f) in BIN.items():
+                    q = QNAME[sym]
+                    if sym == "/" and y[0] == 0:
+                        exp, kind = None, "throw"
+                    else:
+                        exp, kind = f(fx, fy), "rat"
+                    add("op" + sym, red, flat(x, y), mop, flat(x, y), kind, exp)
+                    add("q." + q, red, flat(x, y), mop, flat(x, y), kind, exp)
+                    add({"+": "q.add.alias_ra", "-": "q.sub.alias_rb", "*": "q.mul.alias_ra", "/": "q.div.alias_rb"}[sym], red, flat(x, y), mop, flat(x, y), kind, exp)
+                    add("op" + sym + "=", red, flat(x, y), mop + "in", [0] + flat(x, y), kind, exp)
+                    add("q." + q + "in", red, flat(x, y), mop + "in", [0] + flat(x, y), kind, exp)
+                add("cmpall", red, flat(x, y), "cmpall", flat(x, y), "cmp", (sg(fx - fy), sg(abs(fx) - abs(fy))))
+        short = [(0, 1), (1, 1), (-1, 1), (-7, 1), (3, 7), (-9, 4), (B + 1, 3 * B + 1)]
+        for x in short:
+            for y in short:
+                for z in short:
+                    fx, fy, fz = fr(x), fr(y), fr(z)
+                    a3 = flat(x, y, z)
+                    add("q.axpy", red, a3, "q_axpy", a3, "rat", fx * fy + fz)
+                    add("q.axpy.alias_rc", red, a3, "q_axpy", a3, "rat", fx * fy + fz)
+                    add("q.maxpy.alias_rc", red, a3, "q_maxpy", a3, "rat", fz - fx * fy)
+                    add("q.axmy.alias_rb", red, a3, "q_axmy", a3, "rat", fx * fy - fz)
+                    add("q.axpyin", red, a3, "q_axpyin", a3, "rat", fx + fy * fz)
+                    add("q.maxpyin", red, a3, "q_maxpyin", a3, "rat", fx - fy * fz)
+                    add("q.axmyin", red, a3, "q_axmyin", a3, "rat", fy * fz - fx)
+    reps = [canon(*r) for r in reps0]
+    # ---- sequences of operations on ONE object (a non-canonical intermediate must not survive)
+    SEQ = {"a": lambda x, y: x + y, "s": lambda x, y: x - y, "m": lambda x, y: x * y, "d": lambda x, y: x / y,
+           "qa": lambda x, y: x + y, "qs": lambda x, y: x - y, "qm": lambda x, y: x * y, "qd": lambda x, y: x / y,
+           "A": lambda x, y: x + x, "S": lambda x, y: x - x, "M": lambda x, y: x * x, "D": lambda x, y: x / x,
+           "n": lambda x, y: -x, "i": lambda x, y: 1 / x, "N": lambda x, y: -x,
+           "t": lambda x, y: x + y, "u": lambda x, y: x - y, "p": lambda x, y: x * y, "q": lambda x, y: x / y,
+           "xa": lambda x, y: x + y * y, "xm": lambda x, y: x - y * y}
+    seqops = sorted(SEQ)
+    for i in range(per * 4):
+        x = gen_rat(rng, 1, cov) if rng.chance(3, 4) else rng.choice(reps)
+        val = fr(x)
+        toks, thrown = [], False
+        for j in range(rng.range(2, 6)):
+            op = rng.choice(seqops)
+            if op == "i" and val == 0:
+                op = "n"          # invin(0) is outside the domain (no exception unless __GIVARO_DEBUG)
+            y = rng.choice(reps) if rng.chance(2, 3) else gen_rat(rng, 1, {})
+            if rng.chance(1, 6):
+                y = (0, 1)
+            if rng.chance(1, 8):
+                y = canon((-val).numerator, val.denominator) if rng.chance(1, 2) else canon(val.numerator, val.denominator)
+            toks += [op, y[0], y[1]]
+            try:
+                val = SEQ[op](val, fr(y))
+            except ZeroDivisionError:
+                thrown = True
+                break
+            if abs(val.numerator).bit_length() + val.denominator.bit_length() > 3000:
+                break
+        add("seq", 1, flat(x) + toks, "seq", flat(x) + toks, "throw" if thrown else "ratc", None if thrown else val)
+    # ---- powers: both signs of the base x both parities and signs of the exponent
+    for x in [(-2, 3), (2, 3), (-5, 1), (5, 1), (-1, 1), (1, 1), (-1, 2), (1, 2), (-(B + 1), 3), (B + 1, 3), (-3, B + 1), (0, 1)]:
+        for y in range(-6, 7):
+            if x[0] == 0 and y < 0:
+                continue
+            add("pow.i64", 1, flat(x) + [y], "pow_i64", flat(x) + [y], "ratc", fr(x) ** y)
+            if y >= 0:
+                for v in ("pow.u32", "pow.u64", "q.pow.u32", "q.pow.u64"):
+                    add(v, 1, flat(x) + [y], "pow_u", flat(x) + [y], "ratc", fr(x) ** y)
+    # ---- every boundary of the double decoder
+    for e in (0, 1, 2, 1022, 1023, 1024, 1074, 1075, 1076, 1077, 2045, 2046):
+        for m in (0, 1, 2, 2**51, 2**52 - 2, 2**52 - 1):
+            for sgn in (0, 1):
+                bits = (sgn << 63) | (e << 52) | m
+                xd = struct.unpack("<d", struct.pack("<Q", bits))[0]
+                for v in ("ctor.double", "q.init.double"):
+                    for red in (1, 0):
+                        add(v, red, ["%016x" % bits], "of_double", [sgn, e, m], "rat", Fraction(xd))
+    for eb in (0, 1, 2, 126, 127, 128, 253, 254):
+        for m in (0, 1, 2**22, 2**23 - 1):
+            for sgn in (0, 1):
+                fb = (sgn << 31) | (eb << 23) | m
+                f = struct.unpack("<f", struct.pack("<I", fb))[0]
+                bits = struct.unpack("<Q", struct.pack("<d", f))[0]
+                add("q.init.float", 1, ["%08x" % fb], "of_double", [bits >> 63, (bits >> 52) & 0x7ff, bits & ((1 << 52) - 1)], "rat", Fraction(f))
+    # ---- conversions, printing, residue
+    def mpz_get_d(n):
+        a = abs(n); bl = a.bit_length()
+        if bl > 53:
+            a = (a >> (bl - 53)) << (bl - 53)        # mpz_get_d truncates toward zero
+        return -float(a) if n < 0 else float(a)
+
+    def f32(xd):
+        return struct.unpack("<f", struct.pack("<f", xd))[0]
+    INTT = [("conv.int", I32MIN, I32MAX), ("conv.int64", I64MIN, I64MAX), ("q.convert.int64", I64MIN, I64MAX), ("conv.uint64", 0, U64MAX), ("conv.uint32", 0, U32MAX),
+            ("conv.short", -2**15, 2**15 - 1), ("conv.uint16", 0, 2**16 - 1), ("conv.uint8", 0, 255), ("conv.schar", -128, 127)]
+    for i in range(per):
+        for v, lo, hi in INTT:
+            q0 = rng.choice([lo, hi, 0, 1, -1 if lo < 0 else 1, lo + 1, hi - 1, rng.range(lo, hi)])
+            d = rng.choice([1, 2, 3, 7, 2**32 + 1, gen_den(rng, 2)])
+            r0 = rng.range(0, d - 1)
+            n = q0 * d + r0 if q0 >= 0 else q0 * d - r0          # trunc(n/d) = q0
+            x = canon(n, d)
+            if lo == 0 and x[0] < 0:
+                continue
+            add(v, 1, flat(x), "conv_int", flat(x), "raw", str(trunc0(fr(x))))
+        x = gen_rat(rng, 1, cov)
+        if rng.chance(1, 3):
+            x = canon(rng.bits(rng.range(1, 80)) * rng.choice([1, -1]), (rng.bits(rng.range(1, 80)) or 1))
+        dn, dd = mpz_get_d(x[0]), mpz_get_d(x[1])
+        for v in ("conv.double", "q.convert.double"):
+            add(v, 1, flat(x), "skip", [], "raw", "%016x" % struct.unpack("<Q", struct.pack("<d", dn / dd))[0])
+        try:
+            fv = f32(f32(dn) / f32(dd))
+            add("conv.float", 1, flat(x), "skip", [], "raw", "%08x" % struct.unpack("<I", struct.pack("<f", fv))[0])
+        except (OverflowError, ZeroDivisionError):
+            pass
+        add("conv.string", 1, flat(x), "string", flat(x), "raw", "%d/%d" % x)
+        for v in ("print", "op<<", "q.write"):
+            add(v, 1, flat(x), "print", flat(x), "raw", ("%d/%d" % x) if x[1] > 1 else "%d" % x[0])
+        # x % r : r coprime to the denominator (otherwise mpz_invert has no result), r = 0 throws
+        r = rng.choice([0, 1, -1, 2, 7, -7, 2**64 - 59, gen_int(rng, 2), gen_int(rng, 1)])
+        if r == 0:
+            add("mod", 1, flat(x) + [r], "mod", flat(x) + [r], "throw", None)
+        elif gcd(x[1], r) == 1:
+            inv = pow(x[1], -1, abs(r)) if abs(r) > 1 else 0
+            add("mod", 1, flat(x) + [r], "mod", flat(x) + [r], "raw", str(x[0] * inv if x[0] else 0))
     # ---- three-operand wrappers
     for i in range(per * 2):
         red = 0 if i % 5 == 4 else 1
@@ -497,7 +649,9 @@ def run_cases(chk, cases, himpl, drv):
         if mout is not None:
             ncorr += 1
             mg = mout[i].strip()
-            if mg != got and not bad:      # impl != oracle is already reported as a failing input
+            if c["mop"] == "skip":
+                ncorr -= 1            # oracle-only call form (no model): not a validated trace
+            elif mg != got and not bad:      # impl != oracle is already reported as a failing input
                 chk.broke("correspondence model/implementation differs on %s red=%d args=%s: model=%s impl=%s"
                           % (c["variant"], c["red"], c["iargs"], mg[:300], got[:300]))
             else:
